@@ -146,6 +146,79 @@ theorem C13_fails_only_when_too_small (id : Nat) (data : Bytes) (mtu : Nat)
       injection this with this
       rw [this]; simp
 
+/-! ## The send queue -/
+
+private theorem finCount_append (i : Nat) (a b : List TxEvent) :
+    finCount i (a ++ b) = finCount i a + finCount i b := by
+  simp [finCount, List.filter_append]
+
+private theorem finCount_dgrams (i : Nat) (ds : List Bytes) : finCount i (ds.map .dgram) = 0 := by
+  induction ds with
+  | nil => rfl
+  | cons d ds ih => simp [finCount]
+
+private theorem finCount_item (i : Nat) (mtu : Option Nat) (t : Nat × Bytes) :
+    finCount i (txItem mtu t) = if t.1 = i then 1 else 0 := by
+  unfold txItem
+  cases sendTransfer t.1 t.2 mtu with
+  | failed =>
+    by_cases h : t.1 = i
+    · simp [finCount, List.filter, h]
+    · have hb : (t.1 == i) = false := by simpa using h
+      simp [finCount, List.filter, h, hb]
+  | ok ds =>
+    have := finCount_dgrams i ds
+    rw [show (TxEvent.started t.1 t.2.length :: (ds.map TxEvent.dgram ++
+        [TxEvent.finished t.1 t.2.length "success"])) =
+      [TxEvent.started t.1 t.2.length] ++ (ds.map TxEvent.dgram ++
+        [TxEvent.finished t.1 t.2.length "success"]) from rfl]
+    rw [finCount_append, finCount_append, this]
+    by_cases h : t.1 = i
+    · simp [finCount, List.filter, h]
+    · have hb : (t.1 == i) = false := by simpa using h
+      simp [finCount, List.filter, h, hb]
+
+/-- Every queued transfer is finished exactly once, whatever the MTU: the number of
+    `send_bundle_finished` signals with id `i` is the number of times `i` was queued (one, for the
+    ids `_add_tx_item` hands out) — be it `'success'` or `'failed'`. -/
+theorem C13_tx_finished_exactly_once (mtu : Option Nat) (q : List (Nat × Bytes)) (i : Nat) :
+    finCount i (txRun mtu q) = (q.map (·.1)).count i := by
+  induction q with
+  | nil => rfl
+  | cons t q ih =>
+    simp only [txRun, List.flatMap_cons, List.map_cons] at ih ⊢
+    rw [finCount_append, finCount_item, List.count_cons]
+    rw [ih]
+    by_cases h : t.1 = i <;> simp [h] <;> omega
+
+/-- A transfer that cannot be sent does not disturb the queue: what the others get is what they
+    would get without it, and the failed one contributes `started` and `finished 'failed'` only. -/
+theorem C13_tx_failure_isolated (mtu : Nat) (a b : List (Nat × Bytes)) (t : Nat × Bytes)
+    (hseg : mtu ≤ t.2.length) (hrem : remainSize mtu t.1 t.2.length ≤ 0) :
+    txRun (some mtu) (a ++ t :: b) =
+      txRun (some mtu) a ++ [.started t.1 t.2.length, .finished t.1 t.2.length "failed"] ++
+        txRun (some mtu) b := by
+  have h := (C13_too_small_fails t.1 t.2 mtu hseg hrem).1
+  simp only [txRun, List.flatMap_append, List.flatMap_cons, txItem, h, List.append_assoc,
+    List.cons_append, List.nil_append]
+
+/-- The result says what happened: `'failed'` exactly for a bundle that does not fit one datagram
+    with `remain_size ≤ 0`, otherwise the datagrams of `_send_transfer` followed by `'success'`. -/
+theorem C13_tx_result (mtu : Nat) (t : Nat × Bytes) :
+    (txItem (some mtu) t = [.started t.1 t.2.length, .finished t.1 t.2.length "failed"] ∧
+      mtu ≤ t.2.length ∧ remainSize mtu t.1 t.2.length ≤ 0) ∨
+    ∃ ds, sendTransfer t.1 t.2 (some mtu) = .ok ds ∧ (∀ d ∈ ds, d.length ≤ mtu) ∧
+      txItem (some mtu) t =
+        .started t.1 t.2.length :: (ds.map .dgram ++ [.finished t.1 t.2.length "success"]) := by
+  rcases C13_size t.1 t.2 mtu with ⟨h, h1, h2⟩ | ⟨ds, h, hb⟩
+  · exact Or.inl ⟨by simp only [txItem, h], h1, h2⟩
+  · exact Or.inr ⟨ds, h, hb, by simp only [txItem, h]⟩
+
+/-- MTU 10: a 100-octet transfer fails, the 5-octet one queued behind it goes out and succeeds -/
+example : txRun (some 10) [(0, List.replicate 100 7), (1, [1, 2, 3, 4, 5])] =
+    [.started 0 100, .finished 0 100 "failed",
+     .started 1 5, .dgram [1, 2, 3, 4, 5], .finished 1 5 "success"] := by decide
+
 /-! ## Receiving -/
 
 /-- Repeated segments never yield a corrupted or partial bundle: whatever genuine segments of
